@@ -14,7 +14,7 @@ T_QUICK, T_THOROUGH = 70, 1500
 FLOORS = {"histories": 1500, "steps": 20000, "full_rereads": 40000, "op:leaf": 8000, "op:whole": 2000, "op:ref": 800,
           "growths": 500, "via:handle": 3000, "via:view": 3000, "via:nested": 2000, "via:stale": 1000,
           "whole_from_xobject": 300, "values_with_shorter_strings": 1500, "leaf_from_string_object": 300,
-          "nested_size_checks": 20000, "whole_from_ndarray": 300}
+          "nested_size_checks": 20000, "whole_from_ndarray": 300, "whole_from_array_of_other_class": 150}
 RULE = ("random type AST x value x placement; history of <=30 steps over {set scalar/string leaf of fitting size (strings of "
         "any utf-8 length up to the one they were created with, given as str or as an xo.String object), set "
         "whole nested array/struct of equal shape (plain data or an xobject living elsewhere), set reference (null / "
@@ -114,6 +114,12 @@ def run_case(w, rng):
                         arg = as_ndarray(nt, newv, layout=rng.choice(["c", "f", "strided"]))
                         how = "ndarray"
                         w.count("whole_from_ndarray")
+                    elif op == "whole" and k == "ar" and nt["it"]["k"] == "sc" and 0 not in newv.shape and rng.random() < 0.25:
+                        # an xobject array of ANOTHER class (other axis order / static extents) holding the new value
+                        from xv.props.c01 import other_class_source
+                        arg = other_class_source(nt, newv, rng, c.cache, env)
+                        how = "xobject-of-other-class"
+                        w.count("whole_from_array_of_other_class")
                     elif op == "whole" and rng.random() < 0.3:
                         ncls = build(nt, c.cache)
                         arg = ncls(arg, _buffer=rng.choice([None, env.buf]))
